@@ -143,7 +143,16 @@ func NewRec() *Rec {
 	return &Rec{Meta: map[string][]string{}, fonts: map[backend.Font]int{}, fontReg: map[int]bool{}}
 }
 
+// maxEvents bounds a recorded trace: a drawing loop that never ends (a hang,
+// not a protocol violation: C01's) must not exhaust the memory of the harness.
+const maxEvents = 400000
+
+const runawayMsg = "c14-runaway: more than 400000 backend calls"
+
 func (r *Rec) add(e Ev) {
+	if len(r.Ev) >= maxEvents {
+		panic(runawayMsg)
+	}
 	for _, x := range e.Nums {
 		if !finite(x) {
 			r.viols = append(r.viols, Viol{I: len(r.Ev), Rule: 2, What: "non finite argument", Site: repoSite()})
